@@ -17,6 +17,7 @@ R = z3.RealSort()
 N = z3.Function('rng_next', I, I, I)
 D = z3.Function('rng_draw', I, I, R)
 S = z3.Function('rng_seed', I, I)
+RK = z3.Function('rng_rank', I, I)     # position in the stream: RK(N(s, n)) = RK(s) + n  (period ignored)
 
 
 class _State:
@@ -44,7 +45,7 @@ class _State:
             t1 = N(t0, z3.IntVal(n))
             ctx = Ctx.cur
             if ctx is not None:
-                ctx.assume(t1 != t0)
+                ctx.assume(t1 != t0, RK(t1) == RK(t0) + n)
                 for (a, na, ra) in self._m.next_instances:
                     if na == n:
                         ctx.assume(z3.Implies(ra == t1, a == t0))   # injectivity instances
@@ -108,10 +109,19 @@ class _State:
             low, high = 0, low
         out = []
         for v in vals:
-            # integer-valued draws are kept abstract: a symbolic real in [low, high)
             if Ctx.cur is not None:
                 Ctx.cur.assume(v.t >= low, v.t <= high - 1)
-            out.append(v)
+            if shp is None and isinstance(low, (int, np.integer)) and isinstance(high, (int, np.integer)) and high - low <= 8:
+                # a scalar integer draw used as an index: fork on its value (tied to the state by D)
+                got = None
+                for k in range(int(low), int(high)):
+                    if k == high - 1 or bool(v == k):
+                        got = k
+                        Ctx.cur.assume(v.t == k)
+                        break
+                out.append(got)
+            else:
+                out.append(v)
         return self._shape(out, shp)
 
     def choice(self, a, size=None, replace=True, p=None):
